@@ -114,6 +114,8 @@ MORE4 = {
  "C17": " Known finding D102 (the trace also lists block frames).",
 }
 MORE5 = {
+ "C01": " Keywords are whole words in the grammar (rules that can succeed on a keyword alone or on a keyword and one expression: extracted, decided by the verifier).",
+ "C07": " `modifyx = 1` is a declaration, not `modify x = 1` (grammar keywords are whole words).",
  "C02": " A map type whose key type may hold a map is a diagnostic (nothing the interpreter cannot hash); a class declares each member name once.",
  "C10": " The variables a place is rooted at are followed through `get`, `or` and parenthesised values.",
  "C11": " What a by-name import binds (known finding D105: a copy, not the module's variable).",
